@@ -66,7 +66,7 @@ mutants)
     git -C /repo worktree add -q $wt HEAD || { echo "worktree failed"; exit 2; }
     if ! git -C $wt apply "$patch"; then echo "$name: patch does not apply" | tee -a "$res.tmp"; fail=1; git -C /repo worktree remove --force $wt; continue; fi
     rep="$HERE/build/selftest-replays-$name"; rm -rf "$rep"; mkdir -p "$rep"
-    out=$(VERIF_REPO=$wt "$HERE/check" "$prop" quick -replays "$rep" -evidence "$rep/evidence.json" 2>&1); rc=$?
+    out=$(VERIF_REPO=$wt AGESIM_RUN_LIMIT_S=${SELFTEST_RUN_LIMIT_S:-90} "$HERE/check" "$prop" quick -replays "$rep" -evidence "$rep/evidence.json" 2>&1); rc=$?
     line=$(echo "$out" | grep -m1 '^violation:' | cut -c1-220)
     if [ $rc -eq 1 ] && echo "$out" | grep -q "^VIOLATION property=$prop "; then
       rf=$(echo "$out" | sed -n 's/^VIOLATION property=[A-Z0-9]* replay=//p' | head -1)
@@ -78,6 +78,8 @@ mutants)
       else
         echo "$name: CAUGHT by $prop but REPLAY DID NOT REPRODUCE (rc=$rrc)" | tee -a "$res.tmp"; fail=1
       fi
+    elif [ $rc -eq 2 ] && echo "$out" | grep -q "^WATCHDOG property=$prop "; then
+      echo "$name: NOTICED by the watchdog of $prop (a run hung; exit 2, not a VIOLATION) :: $(echo "$out" | grep -m1 '^WATCHDOG' | cut -c1-200)" | tee -a "$res.tmp"
     else
       echo "$name: MISSED by $prop (rc=$rc)" | tee -a "$res.tmp"; fail=1
     fi
